@@ -32,13 +32,27 @@ import (
 )
 
 // the package-list files; the extractor wants files called pkgs.list
-var files = []string{"var/lib/a/pkgs.list", "opt/pkgs.list", "pkgs.list"}
+// files 0 and 1 sit three directories deep. They share NO ancestor directory: a directory that one layer deletes
+// and a later layer re-creates for a SIBLING shows the lower layers' other children again — that is C04's known
+// finding C04/recreate-after-whiteout (wrong views), so C05's generator keeps every file alone under its ancestors.
+var files = []string{"var/lib/a/pkgs.list", "usr/share/b/pkgs.list", "opt/pkgs.list"}
+
+// ancestor returns the directory n levels above file f (n = 1: its own directory), "" if there is none.
+func ancestor(f, n int) string {
+	parts := strings.Split(files[f], "/")
+	dirs := parts[:len(parts)-1]
+	if n < 1 || n > len(dirs) {
+		return ""
+	}
+	return strings.Join(dirs[:len(dirs)-(n-1)], "/")
+}
 
 // pkgex counts its Extract calls and cancels the scan's context during call number cancelOn (0 = never).
 type pkgex struct {
 	calls    *int
 	cancelOn int
 	cancel   func()
+	sizes    *[]int // when set: the number of bytes every Extract call was handed
 }
 
 func (pkgex) Name() string                       { return "verif/pkgex" }
@@ -56,9 +70,12 @@ func (e pkgex) Extract(ctx context.Context, in *filesystem.ScanInput) (inventory
 	if err != nil {
 		return inventory.Inventory{}, err
 	}
+	if e.sizes != nil {
+		*e.sizes = append(*e.sizes, len(b))
+	}
 	var ps []*extractor.Package
 	for _, l := range strings.Split(string(b), "\n") {
-		if l != "" {
+		if l != "" && l[0] != '#' {
 			name, ver, _ := strings.Cut(l, " ")
 			ps = append(ps, &extractor.Package{Name: name, Version: ver, Locations: []string{in.Path}})
 		}
@@ -84,6 +101,18 @@ func pkgID(name, version string) string {
 		return "?" + name + "@" + version
 	}
 	return strconv.Itoa(n + 4*(v-1))
+}
+
+// hitByAncestorOp: another file's ancestor op in this layer deletes a directory above file f too.
+func hitByAncestorOp(l layer, f int) bool {
+	for g, op := range l.ops {
+		if g != f && len(op) == 2 && (op[0] == 'a' || op[0] == 'r') {
+			if dir := ancestor(g, int(op[1]-'0')); dir != "" && strings.HasPrefix(files[f], dir+"/") {
+				return true
+			}
+		}
+	}
+	return false
 }
 
 type layer struct {
@@ -153,9 +182,25 @@ func run(c tcase) string {
 				img, err = mutate.Append(img, mutate.Addendum{History: h})
 			} else {
 				es := []imgx.TarEnt{{Name: fmt.Sprintf("other%d", i), Typ: tar.TypeReg, Body: strconv.Itoa(i)}}
+				seen := map[string]bool{}
 				for f, op := range l.ops {
 					switch {
 					case op == "k":
+					case (op[0] == 'a' || op[0] == 'r') && len(op) == 2:
+						// an ANCESTOR directory of the file, n levels up, is deleted (a) or replaced by a regular file (r)
+						dir := ancestor(f, int(op[1]-'0'))
+						if dir == "" {
+							panic("no such ancestor: " + op)
+						}
+						if seen[op[:1]+dir] {
+							continue
+						}
+						seen[op[:1]+dir] = true
+						if op[0] == 'a' {
+							es = append(es, imgx.TarEnt{Name: imgx.WhName(dir), Typ: tar.TypeReg})
+						} else {
+							es = append(es, imgx.TarEnt{Name: dir, Typ: tar.TypeReg, Body: "not a directory"})
+						}
 					case op == "d":
 						es = append(es, imgx.TarEnt{Name: imgx.WhName(files[f]), Typ: tar.TypeReg})
 					case op[0] == 'w' || op[0] == 's':
@@ -218,8 +263,13 @@ func run(c tcase) string {
 		for f := 0; f < c.nf; f++ {
 			last := "k"
 			for _, l := range c.layers {
-				if !l.empty && l.ops[f] != "k" {
+				if l.empty {
+					continue
+				}
+				if l.ops[f] != "k" {
 					last = l.ops[f]
+				} else if hitByAncestorOp(l, f) {
+					last = "d"
 				}
 			}
 			if last[0] == 'w' || last[0] == 's' {
@@ -233,7 +283,7 @@ func run(c tcase) string {
 			cancelOn = finalCalls + c.cancel
 		}
 		res, err := scalibr.New().ScanContainer(ctx, im, &scalibr.ScanConfig{
-			FilesystemExtractors: []filesystem.Extractor{pkgex{&calls, cancelOn, cancel}}, Capabilities: &plugin.Capabilities{},
+			FilesystemExtractors: []filesystem.Extractor{pkgex{calls: &calls, cancelOn: cancelOn, cancel: cancel}}, Capabilities: &plugin.Capabilities{},
 			ReadSymlinks: true})
 		if err != nil {
 			return "scanerr"
@@ -326,6 +376,7 @@ func randCase(r *rand.Rand) tcase {
 		c.nf = 1
 	}
 	linky := r.Intn(4) == 0 // a quarter of the cases replace locations by symlinks now and then
+	deep := r.Intn(3) == 0  // a third delete / replace ancestor directories now and then
 	if r.Intn(6) == 0 {
 		c.cancel = 1 + r.Intn(2)
 		if r.Intn(4) == 0 {
@@ -350,6 +401,11 @@ func randCase(r *rand.Rand) tcase {
 			case x == 5 && linky:
 				l.ops[f] = "s" + randPkgs(r, last[f])[1:]
 				last[f] = l.ops[f]
+			case x == 6 && deep:
+				// delete or replace an ancestor directory at any level above the file
+				depth := len(strings.Split(files[f], "/")) - 1
+				l.ops[f] = fmt.Sprintf("%c%d", "aar"[r.Intn(3)], 1+r.Intn(depth))
+				last[f] = ""
 			default:
 				l.ops[f] = randPkgs(r, last[f])
 				last[f] = l.ops[f]
@@ -363,9 +419,10 @@ func randCase(r *rand.Rand) tcase {
 // exhaustive: every history of 1..4 entries over ONE file with the packages 1 = p1@1, 5 = p1@2 (same name,
 // two versions) and 2 = p2@1: each entry is an empty layer, or a layer that keeps / deletes / writes {} {1}
 // {5} {1,5} {5,1} {1,2} / symlinks to {1} {1,5}; each once without cancellation and (3-4 entries) once
-// cancelled after the first re-extraction.
+// cancelled after the first re-extraction. a<n> / r<n>: the directory n levels above the file (three deep) is deleted /
+// replaced by a regular file.
 func exhaustive(emit func(tcase)) {
-	opts := []string{"E", "k", "d", "w", "w1", "w5", "w15", "w51", "w12", "s1", "s15"}
+	opts := []string{"E", "k", "d", "w", "w1", "w5", "w15", "w51", "w12", "s1", "s15", "a1", "a2", "a3", "r2"}
 	for n := 1; n <= 4; n++ {
 		total := 1
 		for i := 0; i < n; i++ {
@@ -393,9 +450,166 @@ func exhaustive(emit func(tcase)) {
 	}
 }
 
+// ---------------------------------------------------------------- the "sizes" stream (verdict: C10)
+//
+// sz <limit> <maxinodes> <op>,<op>,…   op = E (empty layer) | k | d | w<bytes>: ONE package file that every
+// writing layer fills with the same single package and pads to the given size. The real scalibr.ScanContainer runs
+// with MaxFileSize = limit and MaxInodes = maxinodes; the reply lists the byte count handed to every Extract call.
+
+func runSizes(l string) string {
+	return hx.Guard(func() string {
+		t := strings.Split(l, " ")
+		if len(t) != 4 {
+			panic("bad sizes case: " + l)
+		}
+		limit, err1 := strconv.Atoi(t[1])
+		inodes, err2 := strconv.Atoi(t[2])
+		if err1 != nil || err2 != nil {
+			panic("bad sizes case: " + l)
+		}
+		img := v1.Image(empty.Image)
+		for i, op := range strings.Split(t[3], ",") {
+			h := v1.History{CreatedBy: fmt.Sprintf("cmd%d", i), EmptyLayer: op == "E"}
+			var err error
+			if op == "E" {
+				img, err = mutate.Append(img, mutate.Addendum{History: h})
+			} else {
+				es := []imgx.TarEnt{{Name: fmt.Sprintf("other%d", i), Typ: tar.TypeReg, Body: strconv.Itoa(i)}}
+				switch {
+				case op == "k":
+				case op == "d":
+					es = append(es, imgx.TarEnt{Name: imgx.WhName(files[0]), Typ: tar.TypeReg})
+				case op[0] == 'w':
+					n, err := strconv.Atoi(op[1:])
+					if err != nil || n < 5 || n == 6 {
+						panic("bad size: " + op) // "p1 1\n" is 5 bytes; padding adds at least "#\n"
+					}
+					body := "p1 1\n"
+					if n > 5 {
+						body += strings.Repeat("#", n-6) + "\n"
+					}
+					es = append(es, imgx.TarEnt{Name: files[0], Typ: tar.TypeReg, Body: body})
+				default:
+					panic("op " + op)
+				}
+				img, err = mutate.Append(img, mutate.Addendum{Layer: imgx.MkLayer(es), History: h})
+			}
+			if err != nil {
+				panic(err)
+			}
+		}
+		im, err := image.FromV1Image(img, image.DefaultConfig())
+		if err != nil {
+			return "loaderr"
+		}
+		defer im.CleanUp()
+		calls := 0
+		var sizes []int
+		res, err := scalibr.New().ScanContainer(context.Background(), im, &scalibr.ScanConfig{
+			FilesystemExtractors: []filesystem.Extractor{pkgex{calls: &calls, sizes: &sizes}}, Capabilities: &plugin.Capabilities{},
+			MaxFileSize: limit, MaxInodes: inodes})
+		if err != nil {
+			return "scanerr"
+		}
+		ss := make([]string, len(sizes))
+		for i, s := range sizes {
+			ss[i] = strconv.Itoa(s)
+		}
+		return fmt.Sprintf("sizes=%s pkgs=%d status=%s", hx.Join(ss, "."), len(res.Inventory.Packages), res.Status.String())
+	})
+}
+
+func randSizes(r *rand.Rand) string {
+	limits := []int{0, 5, 7, 8, 16, 17, 40, 4096}
+	limit := limits[r.Intn(len(limits))]
+	inodes := []int{0, 50, 1000}[r.Intn(3)]
+	size := func() int {
+		var s int
+		switch r.Intn(4) {
+		case 0: // around the limit: L-1, L, L+1
+			s = limit - 1 + r.Intn(3)
+		case 1:
+			s = 5 + r.Intn(40)
+		case 2:
+			s = limit + 1 + r.Intn(30)
+		default:
+			s = 5 + r.Intn(12)
+		}
+		if s < 5 {
+			s = 5
+		}
+		if s == 6 {
+			s = 7
+		}
+		return s
+	}
+	n := 1 + r.Intn(6)
+	ops := make([]string, n)
+	for i := range ops {
+		switch x := r.Intn(10); {
+		case x < 1:
+			ops[i] = "E"
+		case x < 3:
+			ops[i] = "k"
+		case x < 4:
+			ops[i] = "d"
+		default:
+			ops[i] = "w" + strconv.Itoa(size())
+		}
+	}
+	// mostly let the final version be within the limit (otherwise nothing is reported and nothing is traced), with
+	// older versions on both sides of it
+	if limit >= 5 && r.Intn(10) < 7 {
+		for i := n - 1; i >= 0; i-- {
+			if ops[i][0] == 'w' {
+				s := limit - r.Intn(3)
+				if s < 5 || s == 6 {
+					s = 5
+				}
+				ops[i] = "w" + strconv.Itoa(s)
+				break
+			}
+			if ops[i] == "d" {
+				break
+			}
+		}
+	}
+	return fmt.Sprintf("sz %d %d %s", limit, inodes, strings.Join(ops, ","))
+}
+
 func main() {
 	inproc := flag.Bool("inproc", false, "run every case in this process (worker mode)")
+	only := flag.String("only", "", "sizes: the MaxFileSize stream of C10 instead of the attribution stream")
+	also := flag.String("also", "", "sizes stream: case file whose sz lines are run first (the witnesses, when C10 borrows the stream)")
 	o := hx.Parse()
+	dispatch := func(l string) string {
+		if strings.HasPrefix(l, "sz ") {
+			return runSizes(l)
+		}
+		return hx.Guard(func() string { return run(parseCase(l)) })
+	}
+	if *only == "sizes" {
+		imgx.Main("c05gen", func(scratch string, out *hx.Out) {
+			var lines []string
+			if o.Replay != "" {
+				lines = hx.ReplayLines(o.Replay)
+			} else {
+				if *also != "" {
+					for _, l := range hx.ReplayLines(*also) {
+						if strings.HasPrefix(l, "sz ") {
+							lines = append(lines, l)
+						}
+					}
+				}
+				r := hx.Rng(o)
+				for i := 0; i < o.N; i++ {
+					lines = append(lines, randSizes(r))
+				}
+			}
+			imgx.RunAll(lines, dispatch, scratch, *inproc, out)
+		})
+		return
+	}
 	imgx.Main("c05gen", func(scratch string, out *hx.Out) {
 		var lines []string
 		if o.Replay != "" {
@@ -409,6 +623,6 @@ func main() {
 				lines = append(lines, randCase(r).line())
 			}
 		}
-		imgx.RunAll(lines, func(l string) string { return run(parseCase(l)) }, scratch, *inproc, out)
+		imgx.RunAll(lines, dispatch, scratch, *inproc, out)
 	})
 }
